@@ -77,9 +77,13 @@ def pipeline(tier):
     design = []
     spaths = {"a": [1, 2], "b": [1, 2], "a@v2": [1]}
     for i, req in enumerate(small[: (400 if quick else 6000)]):
-        roots_opts = [["a/1"], ["a/1", "b/2"], ["b/1", "a@v2/1"], ["a/2", "b/1"], ["a/1", "a@v2/1", "b/1"]]
+        roots_opts = [["a/1"], ["a/1", "b/2"], ["b/1", "a@v2/1"], ["a/2", "b/1"], ["a/1", "a@v2/1", "b/1"], ["a/1", "a/2"], ["b/2", "b/1", "a/1"]]
         roots = roots_opts[i % len(roots_opts)]
-        cases.append({"id": "small-%d" % i, "u": {"req": req}, "roots": roots, "ops": ops_for(rnd, req, spaths, roots, False)})
+        c = {"id": "small-%d" % i, "u": {"req": req}, "roots": roots, "ops": ops_for(rnd, req, spaths, roots, False)}
+        if i % 3 == 1:
+            # requirement names that collide with the default names of other projects
+            c["names"] = [rnd.choice(["a", "b", "a@v2", "u"]) + ("" if k == 0 else str(k)) for k in range(len(roots))]
+        cases.append(c)
         if i < (150 if quick else 1500):
             design.append(tla_universe(req, roots))
     for i in range(300 if quick else 5000):
@@ -88,7 +92,14 @@ def pipeline(tier):
         roots = []
         for p in rnd.sample(sorted(paths), rnd.randrange(1, min(3, len(paths)) + 1)):
             roots.append("%s/%d" % (p, rnd.choice(paths[p])))
-        cases.append({"id": "rnd-%d" % i, "u": {"req": req}, "roots": roots, "ops": ops_for(rnd, req, paths, roots, True)})
+        if i % 4 == 0 and roots:
+            p0 = roots[0].rsplit("/", 1)[0]
+            roots.append("%s/%d" % (p0, rnd.choice(paths[p0])))   # the same project twice, under two names
+        c = {"id": "rnd-%d" % i, "u": {"req": req}, "roots": roots, "ops": ops_for(rnd, req, paths, roots, True)}
+        if i % 3 == 2:
+            pool = sorted(paths) + ["u"]
+            c["names"] = [rnd.choice(pool) + ("" if k == 0 else "-%d" % k) for k in range(len(roots))]
+        cases.append(c)
         if i < (60 if quick else 400):
             design.append(tla_universe(req, roots))
     body = "---- MODULE MCMvsGen ----\nEXTENDS MVS\nMCU == {\n  " + ",\n  ".join(design) + "\n}\n====\n"
